@@ -1,7 +1,7 @@
 (* Property C11 — every field is reported exactly once with the correct status; filtered fields cannot
    affect the verdict; the callback fires once per performed comparison. *)
-From Coq Require Import Arith Bool List Permutation.
-From FC Require Import Model.Compare Proofs.CompareP Model.Glob Proofs.GlobP.
+From Coq Require Import NArith Arith Bool List Permutation.
+From FC Require Import Model.Compare Proofs.CompareP Model.Glob Proofs.GlobP Proofs.GlobBracketP.
 Import ListNotations.
 
 Theorem C11_matching_partition : forall src ref,
@@ -68,6 +68,36 @@ Print Assumptions C11_default_field_filters.
 Theorem C11_plain_pattern_names_one_field : forall p name, plain p = true -> (fnmatch name p = true <-> name = p).
 Proof. exact plain_pattern_matches_itself_only. Qed.
 Print Assumptions C11_plain_pattern_names_one_field.
+
+(* bracket expressions after any plain prefix ("velocity_[xyz]", "p[!0]", "p[0-9]"): exactly the names made of the prefix and one
+   listed / not listed / in-range character *)
+Theorem C11_bracket_set_selects : forall l x stuff name,
+  plain l = true -> x <> c_bang -> x <> c_rb -> ~ In c_rb stuff -> ~ In c_dash (x :: stuff) ->
+  (fnmatch name (l ++ c_lb :: (x :: stuff) ++ [c_rb]) = true <-> exists y, name = l ++ [y] /\ In y (x :: stuff)).
+Proof. exact bracket_set_selects. Qed.
+Print Assumptions C11_bracket_set_selects.
+
+Theorem C11_bracket_negated_set_selects : forall l y stuff name,
+  plain l = true -> y <> c_rb -> ~ In c_rb stuff -> ~ In c_dash (y :: stuff) ->
+  (fnmatch name (l ++ c_lb :: (c_bang :: y :: stuff) ++ [c_rb]) = true <-> exists z, name = l ++ [z] /\ ~ In z (y :: stuff)).
+Proof. exact bracket_negated_set_selects. Qed.
+Print Assumptions C11_bracket_negated_set_selects.
+
+Theorem C11_bracket_range_selects : forall l a c name,
+  plain l = true -> a <> c_bang -> a <> c_rb -> c <> c_rb -> (a <= c)%N ->
+  (fnmatch name (l ++ c_lb :: [a; c_dash; c] ++ [c_rb]) = true <-> exists y, name = l ++ [y] /\ (a <= y <= c)%N).
+Proof. exact bracket_range_selects. Qed.
+Print Assumptions C11_bracket_range_selects.
+
+(* "p[0-9]" against "p7", "p", "pa", "p77"; "u_[xyz]" against "u_y", "u_w"; "[!u]" against "p", "u" *)
+Example C11_bracket_nonvacuous :
+  let p := 112%N in let u := 117%N in
+  fnmatch [p; 55%N] [p; c_lb; 48%N; c_dash; 57%N; c_rb] = true /\ fnmatch [p] [p; c_lb; 48%N; c_dash; 57%N; c_rb] = false /\
+  fnmatch [p; 97%N] [p; c_lb; 48%N; c_dash; 57%N; c_rb] = false /\ fnmatch [p; 55%N; 55%N] [p; c_lb; 48%N; c_dash; 57%N; c_rb] = false /\
+  fnmatch [u; 95%N; 121%N] [u; 95%N; c_lb; 120%N; 121%N; 122%N; c_rb] = true /\
+  fnmatch [u; 95%N; 119%N] [u; 95%N; c_lb; 120%N; 121%N; 122%N; c_rb] = false /\
+  fnmatch [p] [c_lb; c_bang; u; c_rb] = true /\ fnmatch [u] [c_lb; c_bang; u; c_rb] = false.
+Proof. exact bracket_examples. Qed.
 
 Example C11_nonvacuous :
   let f n b := {| fname := n; fbase := b |} in
